@@ -1,7 +1,7 @@
 use super::ast::Definition;
 use super::report_code::ReportCode;
 use super::report::Report;
-use super::file_definition::FileID;
+use super::file_definition::{FileID, FileLocation};
 use super::function_data::{FunctionData, FunctionInfo};
 use super::template_data::{TemplateData, TemplateInfo};
 
@@ -80,6 +80,15 @@ impl Merger {
                     file_id,
                     format!("The name `{definition_name}` is already used."),
                 );
+                // The earlier definition is labelled as well, so that the report is located in
+                // both files and is displayed when either of them is a user input.
+                if let Some((first_id, first_location)) = self.first_definition(definition_name) {
+                    report.add_primary(
+                        first_location,
+                        first_id,
+                        format!("The name `{definition_name}` is first defined here."),
+                    );
+                }
                 reports.push(report);
             }
         }
@@ -87,6 +96,13 @@ impl Merger {
             Ok(())
         } else {
             Err(reports)
+        }
+    }
+    fn first_definition(&self, name: &str) -> Option<(FileID, FileLocation)> {
+        if let Some(data) = self.template_info.get(name) {
+            Some((data.get_file_id(), data.get_param_location()))
+        } else {
+            self.function_info.get(name).map(|data| (data.get_file_id(), data.get_param_location()))
         }
     }
     pub fn contains_function(&self, function_name: &str) -> bool {
